@@ -257,6 +257,10 @@ def sweep_table(tname, tab):
         s = "0-" + a_sym
         must_raise("C08:invalid-accepted:isotope-string-zero", "%s table.isotope(%r)" % (tname, s), lambda: tab.isotope(s), (ValueError,), table=tname, input=s)
         must_raise("C08:invalid-accepted:name", "%s table.name(%r)" % (tname, a_sym), lambda: tab.name(a_sym), (ValueError,), table=tname, input=a_sym)
+    for key in (26.5, 0.75, 1.0000001, "26", None):
+        must_raise("C08:invalid-accepted:number", "%s table[%r]" % (tname, key), lambda: tab[key], (KeyError, TypeError), table=tname, input=repr(key))
+    for z_, a_ in ((26, 56.9), (1, 2.5), (8, "16")):
+        must_raise("C08:invalid-accepted:isotope-number", "%s table[%d][%r]" % (tname, z_, a_), lambda: tab[z_][a_], (KeyError, TypeError), table=tname, input=[z_, repr(a_)])
     for z in (-1, 119, 120, 1000):
         must_raise("C08:invalid-accepted:number", "%s table[%d]" % (tname, z), lambda: tab[z], (KeyError,), table=tname, input=z)
     for s in ["", "properties", "_element", "symbol", "isotope", "Xx", "H2", "h"]:
